@@ -30,7 +30,7 @@ def run_small(params, ch):
     else:
         cuts = oracle.choose_cuts(ch, blob_len, kmax)
         cut = {'at': cuts}
-    cfg = {'fs': {'files': {b'/f': {'data': data, 'mode': 0o100644, 'mtime': 9}}}, 'records': comp, 'cut': cut}
+    cfg = {'fs': {'files': {b'/f': {'data': data, 'mode': 0o100644, 'mtime': 9}}}, 'records': comp, 'cut': cut, 'okay_order': params.get('okay')}
     return pull_and_judge(params, ch, cfg, data, (n, tuple(comp), tuple(cuts) if isinstance(cuts, list) else cuts))
 
 
@@ -92,6 +92,8 @@ def parts(tier):
           if (d, cb) != ('bytesio', None)]
     sc += [{'n': n, 'twin': t, 'dest': 'bytesio', 'cb': cb, 'kmax': 0, 'all1': True} for n in range(0, 7) for t in twins for cb in (None, 'count')]
     out.append(Part('dest-x-callback', sc, run_small, {'*': None}, what='destination path/BytesIO x callback none/counting/raising; all-1-byte chunking', bound='<=1 cut'))
+    sc = [{'n': n, 'twin': t, 'dest': 'bytesio', 'cb': cb, 'kmax': 1, 'okay': 'late'} for n in range(0, 6) for t in twins for cb in (None, 'count')]
+    out.append(Part('reply-before-okay', sc, run_small, {'*': None}, what='DATA records overtaking the OKAY that acknowledges the RECV request', bound='<=1 cut'))
     sc = [{'n': n, 'twin': t, 'dest': 'bytesio', 'cb': cb, 'kmax': 1, 'frag': True} for n in (1, 4) for t in twins for cb in (None, 'count')]
     out.append(Part('frag', sc, run_small, {'records': None, 'ncuts': None, 'cutpos': None, 'frag': 1}, split=2, what='read-fragment deviations on top of compositions and cuts',
                     bound='frag deviations <= 1, <=1 cut'))
